@@ -65,6 +65,14 @@ func sweep(c aliasSweep, o *Obs, judge func(string, *Obs) error) error {
 	// Base58 strings: the decoded bytes (checksum included) followed by further bytes - a longer payload that
 	// begins with a valid one
 	if raw, ok := refB58Decode(c.Base); ok && len(raw) > 0 && !strings.Contains(c.Base, ":") {
+		for _, width := range []int{32, 33, 40, 64} { // the same low bytes under a 1 bit far above them (numbers that wrap)
+			if len(raw) <= width {
+				v := refB58Encode(append(append([]byte{0x01}, make([]byte, width-len(raw))...), raw...))
+				if err := judge(v, o); err != nil {
+					return fmt.Errorf("the bytes of %q with a 1 bit %d bytes above them: %v", c.Base, width, err)
+				}
+			}
+		}
 		for _, n := range []int{1, 2, 5, 40, 200} {
 			for _, fill := range []byte{0x00, 0x01, 0xff} {
 				v := refB58Encode(append(append([]byte{}, raw...), bytes.Repeat([]byte{fill}, n)...))
